@@ -134,6 +134,17 @@ CLAIMED['C16'] = dict(
     note='Trusted: M2S, z3, RI of C06 as pre-state of define_type/imports, naming invariant of C09 for aggregate, the census regex over call sites (new iterator adaptors of HashMap would need a new pattern).',
     design='DESIGN.md section 3 / C16')
 
+CLAIMED['C03'] = dict(
+    technique='symbolic execution of rustc MIR (M2S) of resolve_imports / imports / encode_imports from arbitrary graph states satisfying the C06 representation invariant; aggregator and emission by contract; z3 decides agreement with the documented import resolution',
+    text='Graph-side half of the property, bounded (3/4 node slots, 2 world imports per package, 1/2 packages, <= 2 explicit import nodes, 2/3 aggregated imports): '
+         '(A) resolve_imports hands to the aggregator exactly the unsatisfied arguments of live instantiations (node order, world order) followed by the explicit imports, records '
+         'them in implicit_imports / explicit_imports, returns ImplicitImportConflict exactly when a required name is an explicit import, ImportTypeMergeConflict exactly when the '
+         'aggregator refuses, and never panics; (B) CompositionGraph::imports lists exactly the same requirements (so the two agree); (C) encode_imports emits every aggregated import '
+         'once, instances first, and binds every implicit argument and explicit import node to the index of its canonical import. Sharing/naming of the aggregated imports is C09. '
+         'NOT claimed: the bytes of the import/export sections (ComponentBuilder, TypeEncoder), exports, used-interface imports, independence of node creation order.',
+    note='Trusted: RI of C06 as pre-state, contracts of TypeAggregator::{aggregate, imports, canonical_import_name} (C09), `self.import` as an event, M2S, z3. Counterexamples are rule-level (over the MIR); listing witnesses are replayed through the public API.',
+    design='DESIGN.md section 9.2 / C03')
+
 NOT_APPLICABLE = {
  'C01': 'validity is defined by an external 60 kLoC validator over whole-pipeline output; neither it nor the encoder can be executed symbolically here (DESIGN.md section 4)',
  'C02': 'emission functions interleave graph reads with wasm_encoder builder calls and TypeEncoder recursion; deciding the encoded wiring needs a validated model of the builder index spaces that was not built; graph-side bookkeeping is covered by C06, order by C16 (DESIGN.md 9.6)',
